@@ -59,6 +59,13 @@ pub struct Env {
     /// fail, it may never come out with different output.
     #[serde(default)]
     pub io_fail: Option<(u64, u32)>,
+    /// The k-th write() to a regular output file fails with this errno (full disk, quota, I/O error): anthem may fail,
+    /// it may never succeed with other output.
+    #[serde(default)]
+    pub out_fail: Option<(u64, u32)>,
+    /// Every n-th write() to a regular output file is cut short (must not matter).
+    #[serde(default)]
+    pub out_short_every: Option<u64>,
     /// Directories whose contents are "input objects" for the three fields above (set by the caller for each run).
     #[serde(skip)]
     pub io_prefixes: Vec<String>,
@@ -93,6 +100,8 @@ impl Env {
             read_max: None,
             read_eintr_every: None,
             io_fail: None,
+            out_fail: None,
+            out_short_every: None,
             io_prefixes: vec![],
         }
     }
@@ -144,6 +153,8 @@ impl Env {
             read_max: if rng.pct(35) { Some(*rng.pick(&[1u64, 2, 7, 64, 1000])) } else { None },
             read_eintr_every: if rng.pct(25) { Some(*rng.pick(&[2u64, 3, 10])) } else { None },
             io_fail: None,
+            out_fail: None,
+            out_short_every: if rng.pct(20) { Some(*rng.pick(&[1u64, 2, 7])) } else { None },
             io_prefixes: vec![],
         }
     }
@@ -185,15 +196,17 @@ impl Env {
                 e.read_eintr_every = None;
             }
             "io_fail" => e.io_fail = None,
+            "out_fail" => e.out_fail = None,
+            "short_output_writes" => e.out_short_every = None,
             _ => {}
         }
-        if e.hash_seed.is_none() && e.dir_mode == "natural" && e.cpus.is_none() && e.clock_offset_ms.is_none() && e.clock_jump_ms.is_none() && e.heap_pad == 0 && e.read_max.is_none() && e.read_eintr_every.is_none() && e.io_fail.is_none() {
+        if e.hash_seed.is_none() && e.dir_mode == "natural" && e.cpus.is_none() && e.clock_offset_ms.is_none() && e.clock_jump_ms.is_none() && e.heap_pad == 0 && e.read_max.is_none() && e.read_eintr_every.is_none() && e.io_fail.is_none() && e.out_fail.is_none() && e.out_short_every.is_none() {
             e.preload = false;
         }
         e
     }
 
-    pub const DIMS: &'static [&'static str] = &["hash_seed", "dir_order", "cpus", "clock", "heap_pad", "aslr", "stack_pad", "locale", "extra_vars", "cwd", "dirty_out", "crash_first", "stdin_noise", "stdin_pause", "stdin_chunk", "short_reads", "io_fail"];
+    pub const DIMS: &'static [&'static str] = &["hash_seed", "dir_order", "cpus", "clock", "heap_pad", "aslr", "stack_pad", "locale", "extra_vars", "cwd", "dirty_out", "crash_first", "stdin_noise", "stdin_pause", "stdin_chunk", "short_reads", "io_fail", "out_fail", "short_output_writes"];
 }
 
 #[derive(Clone, Debug, PartialEq, Eq)]
@@ -296,6 +309,13 @@ fn build_command(bins: &Binaries, args: &[String], cwd: &Path, env: &Env, extra_
         }
         if env.heap_pad > 0 {
             cmd.env("VERIF_ENV_HEAP_PAD", env.heap_pad.to_string());
+        }
+        if let Some((k, e)) = env.out_fail {
+            cmd.env("VERIF_ENV_OWRITE_FAIL_AT", k.to_string());
+            cmd.env("VERIF_ENV_OWRITE_ERRNO", e.to_string());
+        }
+        if let Some(n) = env.out_short_every {
+            cmd.env("VERIF_ENV_OWRITE_SHORT_EVERY", n.to_string());
         }
         if !env.io_prefixes.is_empty() && (env.read_max.is_some() || env.read_eintr_every.is_some() || env.io_fail.is_some()) {
             cmd.env("VERIF_ENV_IO_PREFIX", env.io_prefixes.join(":"));
